@@ -777,6 +777,25 @@ func TimeIntoData(p *load.Program, run *report.Run, pkgs map[string]bool, allowe
 				c, ok := ins.(ssa.CallInstruction)
 				if ok {
 					if callee := c.Common().StaticCallee(); callee != nil && callee.Pkg != nil && callee.Name() != "init" {
+						perProcess := false
+						switch callee.Pkg.Pkg.Path() {
+						case "hash/maphash":
+							// every maphash value depends on a seed that is random per process
+							perProcess = true
+						case "os":
+							perProcess = callee.Name() == "Getpid" || callee.Name() == "Getppid" || callee.Name() == "Hostname"
+						case "runtime":
+							perProcess = callee.Name() == "NumGoroutine" || callee.Name() == "NumCPU" || callee.Name() == "GOMAXPROCS"
+						}
+						if perProcess {
+							key := short(fn) + "/" + callee.String()
+							run.Count("random-sources", 1)
+							if why, ok := allowedRand[key]; ok {
+								run.OK(rule, key, p.Rel(ins.Pos()), "allowed: "+why)
+							} else {
+								run.Violate(rule, key, p.Rel(ins.Pos()), "a value that differs between processes (hash seed, process or machine identity) in the code-generating packages: what is derived from it — a name, an order, a table index — differs between two parties compiling the same source", nil)
+							}
+						}
 						switch callee.Pkg.Pkg.Path() {
 						case "math/rand", "math/rand/v2", "crypto/rand":
 							key := short(fn) + "/" + callee.String()
